@@ -112,8 +112,13 @@ def main():
             json.dump(summary, fh, default=harness.jdefault)
         os.replace(tmp, os.path.join(a.out, "summary.json"))
 
+    hb_path, hb_every = os.path.join(a.out, "heartbeat"), (50 if a.target == "c11" else 1)
+
     def TestOneInput(data):
         state["n"] += 1
+        if state["n"] % hb_every == 0:          # the parent's stall guard watches this file
+            with open(hb_path, "w") as fh:
+                fh.write(str(state["n"]))
         try:
             one(data)
         except Violation as v:
